@@ -6,7 +6,8 @@ import Reduino.Lang.Promote
 import Reduino.Lang.Libs
 import Reduino.Lang.Assemble
 import Reduino.Lang.Tr2
-/- `lang|tr|<sexpr>`, `lang|pyrun|<sexpr>|N|fuel`, `lang|crun|<sexpr>|N|fuel` (strict reading of `/`, `%`),
+/- string literals travel as `(s x<hex>)`; a write event is printed as `w<text>` (the text of an int is its decimal digits).
+   `lang|tr|<sexpr>`, `lang|pyrun|<sexpr>|N|fuel`, `lang|crun|<sexpr>|N|fuel` (strict reading of `/`, `%`),
    `lang|crunraw|<sexpr>|N|fuel` (raw reading); `tr2` / `crun2` / `crunraw2` translate with `tr2` -/
 namespace Reduino.Driver
 open Reduino.Lang
@@ -43,6 +44,7 @@ def cmpop? : String → Option CmpOp
 partial def toExpr : SExp → Option Expr
   | .list [.atom "i", .atom n] => n.toInt?.map .int
   | .list [.atom "b", .atom v] => some (.bool (v == "T"))
+  | .list [.atom "s", .atom h] => some (.str (unhex (h.drop 1).toString))      -- `(s x<hex of the UTF-8 bytes>)`
   | .list [.atom "v", .atom x] => some (.var x)
   | .list [.atom "bin", .atom op, a, b] => do some (.bin (← binop? op) (← toExpr a) (← toExpr b))
   | .list [.atom "neg", a] => do some (.neg (← toExpr a))
@@ -54,6 +56,7 @@ partial def toExpr : SExp → Option Expr
   | .list [.atom "abs", a] => do some (.abs (← toExpr a))
   | .list [.atom "min", a, b] => do some (.mm .min (← toExpr a) (← toExpr b))
   | .list [.atom "max", a, b] => do some (.mm .max (← toExpr a) (← toExpr b))
+  | .list [.atom "str", a] => do some (.toStr (← toExpr a))
   | _ => none
 
 partial def toStmt : SExp → Option Stmt
@@ -101,7 +104,7 @@ def handleLang (fields : List String) : Option String :=
     | none => some "bad-prog"
     | some p =>
       match tr p with
-      | .ok c => some ("ok " ++ hexOf ("\n".intercalate c.lines))
+      | .ok c => some ("ok " ++ hexOf ("\n".intercalate c.lines) ++ (if InF p then " in" else " out"))
       | .error .breakInMainLoop => some "reject break-in-main-loop"
       | .error .outsideFragment => some "outside-fragment"
   | ["assemble", n, setup, loop] =>
